@@ -95,7 +95,8 @@ theorem Comp.ofObjConst_keyFree (o : Obj) (v : IVal) (b : Bool) (ho : o.ok) (hr 
 inductive KItem where
   | comp (g : Comp)                               -- a component
   | key (o : Obj) (v : Int) (supplied : Bool)     -- LENGTH-KEY over the unsigned object `o`; final value `v`; specified by the caller?
-  | user (u : PLUser)                             -- VALUE parameter over a PARAM-LENGTH-INFO-TYPE DOP
+  | user (u : PLUser)                             -- VALUE parameter over a PARAM-LENGTH-INFO-TYPE DOP: byte field / string payload
+  | ouser (o : Obj) (v : IVal) (key : String)     -- VALUE parameter over a PARAM-LENGTH-INFO-TYPE DOP: the object `o` of `W key` ≥ 1 bits
 
 def KItem.toComp : KItem → Comp
   | .comp g => g
@@ -107,55 +108,85 @@ def KItem.toComp : KItem → Comp
     { param := u.toParam, pair := u.pair, sup := some (.atom u.v), need := 2,
       cur := fun org c => posOf u.bytePos org c + u.raw.length,
       decPre := fun d => lookup u.key d.lengthKeys = some u.bits }
+  | .ouser o v ky =>
+    { param := o.toPLParam ky, pair := (Pair.ofObj o v).map PVal.atom, sup := some (.atom v), need := 2,
+      cur := fun org c => o.pos org c + o.k,
+      decPre := fun d => lookup ky d.lengthKeys = some (o.bl : Int) }
 
 def KItem.ok : KItem → Prop
   | .comp g => g.Ok ∧ g.EndOk ∧ g.KeyFree
   | .key o v _ => o.keyOk ∧ o.inRange (.int v)
   | .user u => u.ok
+  | .ouser o v _ => o.ok ∧ o.inRange v
+
+/-- the key an item refers to and the number of bits it needs it to say -/
+def KItem.ref : KItem → Option (String × Int)
+  | .user u => some (u.key, u.bits)
+  | .ouser o _ ky => some (ky, (o.bl : Int))
+  | _ => none
 
 def KItems.comps (its : List KItem) : List Comp := its.map KItem.toComp
 
 theorem KItems.comps_cons (it : KItem) (its : List KItem) : KItems.comps (it :: its) = it.toComp :: KItems.comps its := rfl
 
-/-- the keys and their users are consistent with the assignment `W` of final values: a key's final value is `W` of its name,
-    a user refers to a key that is listed BEFORE it (`seen`) and its payload has `W key` bits -/
-def KItems.refsOk (W : String → Option Int) : List String → List KItem → Prop
-  | _, [] => True
-  | seen, .comp _ :: rest => KItems.refsOk W seen rest
-  | seen, .key o v _ :: rest => W o.name = some v ∧ KItems.refsOk W (o.name :: seen) rest
-  | seen, .user u :: rest => u.key ∈ seen ∧ W u.key = some u.bits ∧ KItems.refsOk W seen rest
+/-- the keys and their users are consistent with the assignment `W` of final values: a key's final value is `W` of its name;
+    a user refers to a key that is listed BEFORE it (`seen`) and needs `W key` bits; an object user whose length is not
+    what the encoder would derive from its value (`plDerived`: e.g. a 16-bit A_UINT32 holding 5) refers to a key that is
+    `known` when the encoder reaches it — specified by the caller or already derived for an earlier user -/
+def KItems.refsOk (W : String → Option Int) : List String → List String → List KItem → Prop
+  | _, _, [] => True
+  | seen, known, .comp _ :: rest => KItems.refsOk W seen known rest
+  | seen, known, .key o v sup :: rest =>
+    W o.name = some v ∧ KItems.refsOk W (o.name :: seen) (if sup then o.name :: known else known) rest
+  | seen, known, .user u :: rest => u.key ∈ seen ∧ W u.key = some u.bits ∧ KItems.refsOk W seen (u.key :: known) rest
+  | seen, known, .ouser o v key :: rest =>
+    key ∈ seen ∧ W key = some (o.bl : Int) ∧ (key ∈ known ∨ plDerived o.bt v = some (o.bl : Int)) ∧
+    KItems.refsOk W seen (key :: known) rest
 
 /-- a key that the caller does not specify is the key of some user (otherwise the encoder has no value for it) -/
 def KItems.covered (its : List KItem) : Prop :=
-  ∀ o v, KItem.key o v false ∈ its → ∃ u, KItem.user u ∈ its ∧ u.key = o.name
+  ∀ o v, KItem.key o v false ∈ its → ∃ it ∈ its, ∃ b, it.ref = some (o.name, b)
 
-theorem KItems.refsOk_key (W : String → Option Int) : (seen : List String) → (its : List KItem) → KItems.refsOk W seen its →
-    ∀ o v b, KItem.key o v b ∈ its → W o.name = some v
-  | _, [], _, _, _, _, h => by cases h
-  | seen, .comp g :: rest, hr, o, v, b, h => by
+theorem KItems.refsOk_key (W : String → Option Int) : (seen known : List String) → (its : List KItem) →
+    KItems.refsOk W seen known its → ∀ o v b, KItem.key o v b ∈ its → W o.name = some v
+  | _, _, [], _, _, _, _, h => by cases h
+  | seen, known, .comp g :: rest, hr, o, v, b, h => by
     cases h with
-    | tail _ hm => exact KItems.refsOk_key W seen rest hr o v b hm
-  | seen, .key o' v' b' :: rest, hr, o, v, b, h => by
+    | tail _ hm => exact KItems.refsOk_key W seen known rest hr o v b hm
+  | seen, known, .key o' v' b' :: rest, hr, o, v, b, h => by
     cases h with
     | head => exact hr.1
-    | tail _ hm => exact KItems.refsOk_key W _ rest hr.2 o v b hm
-  | seen, .user u :: rest, hr, o, v, b, h => by
+    | tail _ hm => exact KItems.refsOk_key W _ _ rest hr.2 o v b hm
+  | seen, known, .user u :: rest, hr, o, v, b, h => by
     cases h with
-    | tail _ hm => exact KItems.refsOk_key W seen rest hr.2.2 o v b hm
+    | tail _ hm => exact KItems.refsOk_key W seen _ rest hr.2.2 o v b hm
+  | seen, known, .ouser o' v' k' :: rest, hr, o, v, b, h => by
+    cases h with
+    | tail _ hm => exact KItems.refsOk_key W seen _ rest hr.2.2.2 o v b hm
 
-theorem KItems.refsOk_user (W : String → Option Int) : (seen : List String) → (its : List KItem) → KItems.refsOk W seen its →
-    ∀ u, KItem.user u ∈ its → W u.key = some u.bits
-  | _, [], _, _, h => by cases h
-  | seen, .comp g :: rest, hr, u, h => by
+theorem KItems.refsOk_ref (W : String → Option Int) : (seen known : List String) → (its : List KItem) →
+    KItems.refsOk W seen known its → ∀ it ∈ its, ∀ k b, it.ref = some (k, b) → W k = some b
+  | _, _, [], _, _, h, _, _, _ => by cases h
+  | seen, known, .comp g :: rest, hr, it, h, k, b, hk => by
     cases h with
-    | tail _ hm => exact KItems.refsOk_user W seen rest hr u hm
-  | seen, .key o' v' b' :: rest, hr, u, h => by
+    | head => cases hk
+    | tail _ hm => exact KItems.refsOk_ref W seen known rest hr it hm k b hk
+  | seen, known, .key o' v' b' :: rest, hr, it, h, k, b, hk => by
     cases h with
-    | tail _ hm => exact KItems.refsOk_user W _ rest hr.2 u hm
-  | seen, .user u' :: rest, hr, u, h => by
+    | head => cases hk
+    | tail _ hm => exact KItems.refsOk_ref W _ _ rest hr.2 it hm k b hk
+  | seen, known, .user u' :: rest, hr, it, h, k, b, hk => by
     cases h with
-    | head => exact hr.2.1
-    | tail _ hm => exact KItems.refsOk_user W seen rest hr.2.2 u hm
+    | head =>
+      simp only [KItem.ref, Option.some.injEq, Prod.mk.injEq] at hk
+      rw [← hk.1, ← hk.2]; exact hr.2.1
+    | tail _ hm => exact KItems.refsOk_ref W seen _ rest hr.2.2 it hm k b hk
+  | seen, known, .ouser o' v' k' :: rest, hr, it, h, k, b, hk => by
+    cases h with
+    | head =>
+      simp only [KItem.ref, Option.some.injEq, Prod.mk.injEq] at hk
+      rw [← hk.1, ← hk.2]; exact hr.2.1
+    | tail _ hm => exact KItems.refsOk_ref W seen _ rest hr.2.2.2 it hm k b hk
 
 /-! ### every item's pair composes -/
 
@@ -164,6 +195,7 @@ theorem KItem.good (it : KItem) (h : it.ok) : Good it.toComp.pair := by
   | comp g => exact h.1.good
   | key o v b => exact Good.hole o v
   | user u => exact u.good h
+  | ouser o v key => exact (Good.ofObj o h.1 v h.2).map _
 
 theorem KItems.good : (its : List KItem) → (∀ it ∈ its, it.ok) → Good (Comps.pair (KItems.comps its))
   | [], _ => Good.nil _
@@ -175,6 +207,7 @@ theorem KItem.eopOnly_of_not_comp (it : KItem) (h : ∀ g, it ≠ .comp g) : it.
   | comp g => exact absurd rfl (h g)
   | key o v b => rfl
   | user u => rfl
+  | ouser o v key => rfl
 
 /-! ### the cells of the keys: where the first pass leaves the holes -/
 
@@ -191,6 +224,7 @@ theorem KItem.cell_sameCore (it : KItem) (s t : EncState) (h : SameCore s t) : i
   | comp g => rfl
   | key o v b => simp only [KItem.cell, h.2.2.2.1, h.2.2.2.2]
   | user u => rfl
+  | ouser o v key => rfl
 
 theorem KItems.cells_sameCore : (its : List KItem) → (∀ it ∈ its, it.ok) → ∀ (s t : EncState), SameCore s t →
     KItems.cells its s = KItems.cells its t
@@ -208,6 +242,7 @@ theorem KItems.cells_ok : (its : List KItem) → (∀ it ∈ its, it.ok) → ∀
     · cases it with
       | comp g => cases hc
       | user u => cases hc
+      | ouser o v key => cases hc
       | key o v b =>
         simp only [KItem.cell, List.mem_singleton] at hc
         subst hc
@@ -230,6 +265,9 @@ theorem KItems.cells2_eq (KP : List (String × Nat)) : (its : List KItem) → (s
   | .user u :: rest, s, h => by
     simp only [KItems.cells2, KItems.cells, KItem.cell, List.nil_append]
     exact KItems.cells2_eq KP rest _ (fun c hc => h c (by simp only [KItems.cells, KItem.cell, List.nil_append]; exact hc))
+  | .ouser o v key :: rest, s, h => by
+    simp only [KItems.cells2, KItems.cells, KItem.cell, List.nil_append]
+    exact KItems.cells2_eq KP rest _ (fun c hc => h c (by simp only [KItems.cells, KItem.cell, List.nil_append]; exact hc))
   | .key o v b :: rest, s, h => by
     have h0 := h (o, v, o.pos s.origin s.cursorByte) (by simp [KItems.cells, KItem.cell])
     simp only [KItems.cells2, KItems.cells, KItem.cell, List.singleton_append, h0, Option.getD_some]
@@ -243,6 +281,7 @@ theorem KItem.supOk (it : KItem) (h : it.ok) :
   | comp g => exact ⟨h.1.supplied, h.1.sup_ne_none⟩
   | key o v b => cases b <;> simp [KItem.toComp, Obj.toKeyParam, Param.kind, PKind.required]
   | user u => simp [KItem.toComp]
+  | ouser o v key => simp [KItem.toComp]
 
 theorem KItems.lookupV_values (its : List KItem) (hok : ∀ it ∈ its, it.ok) (hn : Comps.namesOk (KItems.comps its))
     (g : Comp) (hg : g ∈ KItems.comps its) :
@@ -292,7 +331,7 @@ structure Pass1 (W : String → Option Int) (its : List KItem) (s s' : EncState)
   inv : ∀ n x, lookup n s'.lengthKeys = some x → W n = some x
   mono : ∀ n x, lookup n s.lengthKeys = some x → lookup n s'.lengthKeys = some x
   supplied : ∀ o v, KItem.key o v true ∈ its → lookup o.name s'.lengthKeys = some v
-  used : ∀ u, KItem.user u ∈ its → lookup u.key s'.lengthKeys = some u.bits
+  used : ∀ it ∈ its, ∀ k b, it.ref = some (k, b) → lookup k s'.lengthKeys = some b
   pos : ∀ c ∈ KItems.cells its s, lookup c.1.name s'.keyPos = some c.2.2
   posOther : ∀ n, (∀ o v b, KItem.key o v b ∈ its → o.name ≠ n) → lookup n s'.keyPos = lookup n s.keyPos
 
@@ -311,19 +350,20 @@ theorem eopState_fields (b : Bool) (eop : Bool) (s : EncState) :
 /-- **the first loop of `composite_codec_encode_into_pdu` on a list of items** = the pure encoder of the list (holes for the
     keys), and the dictionaries it leaves behind -/
 theorem KItems.encode1 (W : String → Option Int) : (its : List KItem) → (∀ it ∈ its, it.ok) →
-    Comps.eopLast (KItems.comps its) → Comps.namesOk (KItems.comps its) → ∀ (seen : List String), KItems.refsOk W seen its →
-    ∀ (values : List (String × PVal)),
+    Comps.eopLast (KItems.comps its) → Comps.namesOk (KItems.comps its) → ∀ (seen known : List String),
+    KItems.refsOk W seen known its → ∀ (values : List (String × PVal)),
     (∀ g ∈ KItems.comps its, lookupV g.name values = g.sup ∧ (g.param.kind.required = true → (lookup g.name values).isNone = false)) →
     ∀ (fuel : Nat), Comps.need (KItems.comps its) ≤ fuel → ∀ (eop : Bool), (Comps.anyEop (KItems.comps its) = true → eop = true) →
     ∀ (s : EncState), (∀ n x, lookup n s.lengthKeys = some x → W n = some x) →
+    (∀ n ∈ known, (lookup n s.lengthKeys).isSome = true) →
     ∃ s', encodeParams eop values fuel (Comps.toParams (KItems.comps its)) s true = .ok ((), s') ∧ Pass1 W its s s'
-  | [], _, _, _, _, _, values, _, fuel, hf, eop, _, s, hinv => by
+  | [], _, _, _, _, _, _, values, _, fuel, hf, eop, _, s, hinv, _ => by
     simp only [KItems.comps, List.map_nil, Comps.need] at hf
     obtain ⟨f, rfl⟩ : ∃ f, fuel = f + 1 := ⟨fuel - 1, by omega⟩
     refine ⟨s, by simp [KItems.comps, Comps.toParams, encodeParams, pure, run_pure], ?_⟩
     exact ⟨SameCore.refl _, id, hinv, fun _ _ h => h, fun _ _ h => (by cases h), fun _ h => (by cases h),
       fun _ h => (by cases h), fun _ _ => rfl⟩
-  | it :: its, hok, hlast, hn, seen, hrefs, values, hlook, fuel, hf, eop, heop, s, hinv => by
+  | it :: its, hok, hlast, hn, seen, known, hrefs, values, hlook, fuel, hf, eop, heop, s, hinv, hknown => by
     have hokit := hok it (List.mem_cons_self ..)
     have hokr : ∀ x ∈ its, x.ok := fun x hx => hok x (List.mem_cons_of_mem _ hx)
     rw [KItems.comps_cons] at hlast hn hlook hf heop
@@ -347,16 +387,16 @@ theorem KItems.encode1 (W : String → Option Int) : (its : List KItem) → (∀
     have hgood := it.good hokit
     have hgoodr := KItems.good its hokr
     -- the step of the head item: the state behind it, and what it does to the dictionaries
-    have hstep : ∃ s1 seen', encodeParams eop values (f + 1) (Comps.toParams (it.toComp :: KItems.comps its)) s true =
+    have hstep : ∃ s1 seen' known', encodeParams eop values (f + 1) (Comps.toParams (it.toComp :: KItems.comps its)) s true =
           encodeParams eop values f (Comps.toParams (KItems.comps its)) s1 true ∧
         SameCore s1 (it.toComp.pair.enc s) ∧ (s.cursorBit = 0 → s1.cursorBit = 0) ∧
         (∀ n x, lookup n s1.lengthKeys = some x → W n = some x) ∧
         (∀ n x, lookup n s.lengthKeys = some x → lookup n s1.lengthKeys = some x) ∧
         (∀ o v, it = KItem.key o v true → lookup o.name s1.lengthKeys = some v) ∧
-        (∀ u, it = KItem.user u → lookup u.key s1.lengthKeys = some u.bits) ∧
+        (∀ k b, it.ref = some (k, b) → lookup k s1.lengthKeys = some b) ∧
         (∀ c ∈ it.cell s, lookup c.1.name s1.keyPos = some c.2.2) ∧
         (∀ n, (∀ o v b, it = KItem.key o v b → o.name ≠ n) → lookup n s1.keyPos = lookup n s.keyPos) ∧
-        KItems.refsOk W seen' its := by
+        KItems.refsOk W seen' known' its ∧ (∀ n ∈ known', (lookup n s1.lengthKeys).isSome = true) := by
       cases it with
       | comp g =>
         obtain ⟨hgok, hgend, hgkf⟩ := hokit
@@ -374,8 +414,8 @@ theorem KItems.encode1 (W : String → Option Int) : (its : List KItem) → (∀
         obtain ⟨s1, hrun, hc1⟩ := hgok.encode_eq f (by simp only [KItem.toComp] at hf; omega) sm hsmEop
         obtain ⟨hk1, hk2⟩ := hgkf.enc_keys f (by simp only [KItem.toComp] at hf; omega) _ _ hrun
         have hcb1 : s1.cursorBit = 0 := encodeParam_cursorBit _ _ _ _ _ _ hrun
-        refine ⟨s1, seen, ?_, hc1.trans (hgok.good.core _ _ hsm), fun _ => hcb1, ?_, ?_, fun _ _ h => (by cases h),
-          fun _ h => (by cases h), fun _ h => (by cases h), ?_, hrefs⟩
+        refine ⟨s1, seen, known, ?_, hc1.trans (hgok.good.core _ _ hsm), fun _ => hcb1, ?_, ?_, fun _ _ h => (by cases h),
+          fun _ _ h => (by cases h), fun _ h => (by cases h), ?_, hrefs, ?_⟩
         · simp only [Comps.toParams, List.map_cons, KItem.toComp]
           rw [encodeParams_cons_nonkey eop values f g.param hgok.notKey _ s hreq]
           have hemp' : (List.map Comp.param (KItems.comps its)).isEmpty = (KItems.comps its).isEmpty := hemp
@@ -384,6 +424,7 @@ theorem KItems.encode1 (W : String → Option Int) : (its : List KItem) → (∀
         · intro n x h; rw [hk1, hsmL] at h; exact hinv n x h
         · intro n x h; rw [hk1, hsmL]; exact h
         · intro n _; rw [hk2, hsmK]
+        · intro n hn; rw [hk1, hsmL]; exact hknown n hn
       | user u =>
         have huok : u.ok := hokit
         obtain ⟨hin, hW, hrefs'⟩ := hrefs
@@ -415,7 +456,7 @@ theorem KItems.encode1 (W : String → Option Int) : (its : List KItem) → (∀
             · simp [hne]
         refine ⟨{ (Pair.bytesAt u.raw).enc { sm with cursorByte := posOf u.bytePos sm.origin sm.cursorByte, cursorBit := 0,
                                                      lengthKeys := u.keysAfter sm.lengthKeys } with cursorBit := 0 },
-          seen, ?_, ?_, ?_, ?_, ?_, fun _ _ h => (by cases h), ?_, fun _ h => (by cases h), ?_, hrefs'⟩
+          seen, u.key :: known, ?_, ?_, ?_, ?_, ?_, fun _ _ h => (by cases h), ?_, fun _ h => (by cases h), ?_, hrefs', ?_⟩
         · simp only [Comps.toParams, List.map_cons, KItem.toComp]
           rw [encodeParams_cons_nonkey eop values (f2 + 2) u.toParam hnk _ s hreq]
           have hemp' : (List.map Comp.param (KItems.comps its)).isEmpty = (KItems.comps its).isEmpty := hemp
@@ -450,12 +491,99 @@ theorem KItems.encode1 (W : String → Option Int) : (its : List KItem) → (∀
             rw [hW] at this
             exact this
           · simp only [hne, if_false]; exact h
-        · intro u' hu'
-          cases hu'
+        · intro k b hkb
+          simp only [KItem.ref, Option.some.injEq, Prod.mk.injEq] at hkb
+          rw [← hkb.1, ← hkb.2]
           simp only [bytesAt_enc_lengthKeys, hsmL]
           rw [hafter]; simp
         · intro n _
           simp only [bytesAt_enc_keyPos, hsmK]
+        · intro n hn
+          simp only [bytesAt_enc_lengthKeys, hsmL]
+          rw [hafter n]
+          by_cases hne : n = u.key
+          · simp [hne]
+          · simp only [hne, if_false]
+            cases hn with
+            | head => exact absurd rfl hne
+            | tail _ hm => exact hknown n hm
+      | ouser o v key =>
+        obtain ⟨hook, hor⟩ := hokit
+        obtain ⟨hin, hW, hder, hrefs'⟩ := hrefs
+        have hk : lookup key s.lengthKeys = some (o.bl : Int) ∨
+            (lookup key s.lengthKeys = none ∧ plDerived o.bt v = some (o.bl : Int)) := by
+          cases hlk : lookup key s.lengthKeys with
+          | none =>
+            rcases hder with hkn | hd
+            · have := hknown key hkn
+              rw [hlk] at this; cases this
+            · exact Or.inr ⟨rfl, hd⟩
+          | some x =>
+            have := hinv _ _ hlk
+            rw [hW] at this
+            exact Or.inl (by rw [Option.some.inj this])
+        obtain ⟨f2, rfl⟩ : ∃ f2, f = f2 + 2 := ⟨f - 2, by simp only [KItem.toComp] at hf; omega⟩
+        have hk' : lookup key sm.lengthKeys = some (o.bl : Int) ∨
+            (lookup key sm.lengthKeys = none ∧ plDerived o.bt v = some (o.bl : Int)) := by
+          rw [hsmL]; exact hk
+        have hrun := o.encodeParam_pl hook v hor key f2 sm hk'
+        have hnk : (o.toPLParam key).kind.isKey = false := rfl
+        have hafter : ∀ n, lookup n (keysAfterObj key o.bl s.lengthKeys) =
+            if n = key then some (o.bl : Int) else lookup n s.lengthKeys := by
+          intro n
+          unfold keysAfterObj
+          rcases hk with hk | ⟨hk, _⟩
+          · rw [hk]
+            by_cases hne : n = key
+            · subst hne; simp [hk]
+            · simp [hne]
+          · rw [hk]
+            by_cases hne : n = key
+            · subst hne; simp [lookup_insertKV_self]
+            · simp [hne, lookup_insertKV_ne _ _ _ _ hne]
+        refine ⟨encStep o v { sm with lengthKeys := keysAfterObj key o.bl sm.lengthKeys },
+          seen, key :: known, ?_, ?_, ?_, ?_, ?_, fun _ _ h => (by cases h), ?_, fun _ h => (by cases h), ?_, hrefs', ?_⟩
+        · simp only [Comps.toParams, List.map_cons, KItem.toComp]
+          rw [encodeParams_cons_nonkey eop values (f2 + 2) (o.toPLParam key) hnk _ s hreq]
+          have hemp' : (List.map Comp.param (KItems.comps its)).isEmpty = (KItems.comps its).isEmpty := hemp
+          have hl' : lookupV (o.toPLParam key).name values = some (.atom v) := hl
+          rw [hemp', hsmdef, hl', hrun]
+        · exact encStep_sameCore o v _ _ ⟨hsm.1, hsm.2.1, hsm.2.2.1, hsm.2.2.2.1, hsm.2.2.2.2⟩
+        · intro _; rfl
+        · intro n x h
+          simp only [encStep_lengthKeys, hsmL] at h
+          rw [hafter n] at h
+          by_cases hne : n = key
+          · subst hne
+            simp only [if_true, Option.some.injEq] at h
+            rw [← h]; exact hW
+          · simp only [hne, if_false] at h; exact hinv n x h
+        · intro n x h
+          simp only [encStep_lengthKeys, hsmL]
+          rw [hafter n]
+          by_cases hne : n = key
+          · subst hne
+            simp only [if_true]
+            have := hinv _ _ h
+            rw [hW] at this
+            exact this
+          · simp only [hne, if_false]; exact h
+        · intro k b hkb
+          simp only [KItem.ref, Option.some.injEq, Prod.mk.injEq] at hkb
+          rw [← hkb.1, ← hkb.2]
+          simp only [encStep_lengthKeys, hsmL]
+          rw [hafter]; simp
+        · intro n _
+          simp only [encStep_keyPos, hsmK]
+        · intro n hn
+          simp only [encStep_lengthKeys, hsmL]
+          rw [hafter n]
+          by_cases hne : n = key
+          · simp [hne]
+          · simp only [hne, if_false]
+            cases hn with
+            | head => exact absurd rfl hne
+            | tail _ hm => exact hknown n hm
       | key o v b =>
         obtain ⟨hkok, hr⟩ := hokit
         obtain ⟨hW, hrefs'⟩ := hrefs
@@ -475,7 +603,7 @@ theorem KItems.encode1 (W : String → Option Int) : (its : List KItem) → (∀
         | false =>
           simp only [Bool.false_eq_true, if_false] at hl'
           refine ⟨{ holeStep o sm with keyPos := insertKV o.name (o.pos sm.origin sm.cursorByte) sm.keyPos },
-            o.name :: seen, ?_, ?_, ?_, ?_, ?_, fun _ _ h => (by cases h), fun _ h => (by cases h), ?_, ?_, hrefs'⟩
+            o.name :: seen, known, ?_, ?_, ?_, ?_, ?_, fun _ _ h => (by cases h), fun _ _ h => (by cases h), ?_, ?_, hrefs', ?_⟩
           · simp only [Comps.toParams, List.map_cons, KItem.toComp]
             rw [encodeParams_cons_key, hemp', hsmdef, hl', encodeKeyPlaceholder_none]
           · exact ⟨hcore.1, hcore.2.1, hcore.2.2.1, hcore.2.2.2.1, hcore.2.2.2.2⟩
@@ -493,13 +621,16 @@ theorem KItems.encode1 (W : String → Option Int) : (its : List KItem) → (∀
           · intro n hne
             have : n ≠ o.name := fun e => hne o v false rfl e.symm
             simp only [lookup_insertKV_ne _ _ _ _ this, holeStep_keyPos, hsmK]
+          · intro n hn
+            simp only [holeStep_lengthKeys, hsmL]
+            exact hknown n hn
         | true =>
           simp only [if_true] at hl'
           have hk' : lookup o.name sm.lengthKeys = none ∨ lookup o.name sm.lengthKeys = some v := by
             rw [hsmL]; exact hk
           refine ⟨{ holeStep o sm with keyPos := insertKV o.name (o.pos sm.origin sm.cursorByte) sm.keyPos,
                                        lengthKeys := insertKV o.name v sm.lengthKeys },
-            o.name :: seen, ?_, ?_, ?_, ?_, ?_, ?_, fun _ h => (by cases h), ?_, ?_, hrefs'⟩
+            o.name :: seen, o.name :: known, ?_, ?_, ?_, ?_, ?_, ?_, fun _ _ h => (by cases h), ?_, ?_, hrefs', ?_⟩
           · simp only [Comps.toParams, List.map_cons, KItem.toComp]
             rw [encodeParams_cons_key, hemp', hsmdef, hl', encodeKeyPlaceholder_some o v _ hk']
           · exact ⟨hcore.1, hcore.2.1, hcore.2.2.1, hcore.2.2.2.1, hcore.2.2.2.2⟩
@@ -531,8 +662,17 @@ theorem KItems.encode1 (W : String → Option Int) : (its : List KItem) → (∀
           · intro n hne
             have : n ≠ o.name := fun e => hne o v true rfl e.symm
             simp only [lookup_insertKV_ne _ _ _ _ this, holeStep_keyPos, hsmK]
-    obtain ⟨s1, seen', hrun1, hc1, hcb1, hinv1, hmono1, hsup1, huse1, hpos1, hoth1, hrefs1⟩ := hstep
-    obtain ⟨s2, hrun2, hp2⟩ := KItems.encode1 W its hokr hlastr hn.2 seen' hrefs1 values hlookr f (by omega) eop heopr s1 hinv1
+          · intro n hn
+            simp only [hsmL]
+            by_cases hne : n = o.name
+            · subst hne; rw [lookup_insertKV_self]; rfl
+            · rw [lookup_insertKV_ne _ _ _ _ hne]
+              cases hn with
+              | head => exact absurd rfl hne
+              | tail _ hm => exact hknown n hm
+    obtain ⟨s1, seen', known', hrun1, hc1, hcb1, hinv1, hmono1, hsup1, huse1, hpos1, hoth1, hrefs1, hknown1⟩ := hstep
+    obtain ⟨s2, hrun2, hp2⟩ := KItems.encode1 W its hokr hlastr hn.2 seen' known' hrefs1 values hlookr f (by omega) eop heopr s1
+      hinv1 hknown1
     refine ⟨s2, by rw [KItems.comps_cons, hrun1]; exact hrun2, ?_⟩
     have hcells : KItems.cells its s1 = KItems.cells its (it.toComp.pair.enc s) := KItems.cells_sameCore its hokr _ _ hc1
     -- the names of the keys among the rest differ from the head's name
@@ -547,10 +687,10 @@ theorem KItems.encode1 (W : String → Option Int) : (its : List KItem) → (∀
       cases hm with
       | head => exact hp2.mono _ _ (hsup1 o v rfl)
       | tail _ hm => exact hp2.supplied o v hm
-    · intro u hm
+    · intro it' hm k b hkb
       cases hm with
-      | head => exact hp2.mono _ _ (huse1 u rfl)
-      | tail _ hm => exact hp2.used u hm
+      | head => exact hp2.mono _ _ (huse1 k b hkb)
+      | tail _ hm => exact hp2.used it' hm k b hkb
     · intro c hc
       simp only [KItems.cells, List.mem_append] at hc
       rcases hc with hc | hc
@@ -559,6 +699,7 @@ theorem KItems.encode1 (W : String → Option Int) : (its : List KItem) → (∀
         cases it with
         | comp g => cases hc
         | user u => cases hc
+        | ouser o v key => cases hc
         | key o v b =>
           simp only [KItem.cell, List.mem_singleton] at hc
           rw [hp2.posOther c.1.name (by
@@ -622,6 +763,11 @@ theorem KItems.encode2 : (its : List KItem) → (∀ it ∈ its, it.ok) → ∀ 
       simp only [KItem.toComp]
       rw [encodeKeyValues_cons_nonkey u.toParam (by rfl) f]
       exact KItems.encode2 its hokr f (by omega) s hkeysr
+    | ouser o v key =>
+      obtain ⟨f, rfl⟩ : ∃ f, fuel = f + 1 := ⟨fuel - 1, by omega⟩
+      simp only [KItem.toComp]
+      rw [encodeKeyValues_cons_nonkey (o.toPLParam key) (by rfl) f]
+      exact KItems.encode2 its hokr f (by omega) s hkeysr
     | key o v b =>
       obtain ⟨f, rfl⟩ : ∃ f, fuel = f + 2 := ⟨fuel - 2, by simp only [KItem.toComp] at hf; omega⟩
       obtain ⟨h1, h2⟩ := hkeys o v b (List.mem_cons_self ..)
@@ -655,6 +801,11 @@ theorem KItem.decOk (it : KItem) (h : it.ok) : it.toComp.DecOk := by
     intro fuel hf d _ hfit hpre
     obtain ⟨f, rfl⟩ : ∃ f, fuel = f + 2 := ⟨fuel - 2, by simp only [KItem.toComp] at hf; omega⟩
     exact u.decodeParam_eq h f d hfit hpre
+  | ouser o v key =>
+    refine ⟨fun _ _ => rfl, fun _ => rfl, ?_⟩
+    intro fuel hf d _ hfit hpre
+    obtain ⟨f, rfl⟩ : ∃ f, fuel = f + 2 := ⟨fuel - 2, by simp only [KItem.toComp] at hf; omega⟩
+    exact o.decodeParam_pl h.1 key f d hfit.1 hfit.2 hpre
 
 theorem KItems.dec_cursorBit : (its : List KItem) → (∀ it ∈ its, it.ok) → ∀ (d : DecState), d.cursorBit = 0 →
     ((Comps.pair (KItems.comps its)).dec d).2.cursorBit = 0
